@@ -1,5 +1,6 @@
 import Mc.Drv.Sync
 import Mc.Spec.SyncOracles
+import Mc.Spec.RollingOracle
 namespace Mc.Drv
 
 def caseOfJ (c : J) : SyncCase :=
@@ -68,6 +69,8 @@ def handleSync (c : J) : Res := Id.run do
   r := judge r "C03" (oracleC03 s)
   r := judge r "C04" (oracleC04 s)
   r := judge r "C06" (oracleC06 s)
+  r := judge r "C07" (oracleC07 s)
+  r := judge r "C08" (oracleC08 s)
   r := judge r "C09" (oracleC09 s)
   r := judge r "C10" (oracleC10 s)
   r := judge r "C11" (oracleC11 s)
